@@ -37,7 +37,10 @@ Theorem C05_filters : forall c pol evs p,
             (c_modules c = true -> e_mc e <> MSkip).
 Proof. exact filters_full. Qed.
 
-(** no prompt (and no trace call) in a thread other than the main one when thread tracing is off *)
+(** no prompt (and no trace call) in a thread other than the main one when thread tracing is off.
+    By construction: this is the [else] branch of [run] ([stream_traced c = c_main c || c_threads c]).  The content of the
+    clause -- sys_trace installs threading.settrace only if trace_threads -- rests on the tie (correspondence runs with
+    trace_threads off: no trace for any non-main thread), not on this theorem. *)
 Theorem C05_threads_off : forall c pol evs,
   c_threads c = false -> c_main c = false -> prompts c pol evs = [] /\ trace_calls c pol evs = [].
 Proof. exact no_prompt_in_untraced_thread. Qed.
@@ -113,9 +116,43 @@ Theorem C05_continue_refuted :
   exists evs, (1 < List.length (prompts cfg_off (all Continue) evs))%nat.
 Proof. exists continue_stream. vm_compute. lia. Qed.
 
-(** all-step: the prompted line events are exactly the line events of the frames that had an
-    accepted call event, in order ([step_spec] looks at the filter chain only) *)
+(** the filter chain is COMPLETE: in terms of the event's own attributes only ([accept_attr], Bdb/Filters.v -- no plugin,
+    no registration order, no pluggy), the chain rejects an event iff [accept_attr] does not accept it ... *)
+Theorem C05_filter_complete : forall c e fs,
+  rejected c e fs = (negb (fst (accept_attr c e fs)), snd (accept_attr c e fs)).
+Proof. exact filter_complete. Qed.
+
+(** ... in particular, module tracing off: an event of the script module that is not in a lambda IS accepted; *)
+Theorem C05_filter_complete_modules_off : forall c e fs,
+  c_modules c = false -> e_mc e = MScript -> e_lam e = false -> fst (rejected c e fs) = false.
+Proof. exact accepted_modules_off. Qed.
+
+(** module tracing on: an event that is not skip-listed and not in a lambda IS accepted once its thread/task is entered
+    (already traced, or its module is one of the modules to trace, or it is the first event of the entering thread) *)
+Theorem C05_filter_complete_modules_on : forall c e fs,
+  c_modules c = true -> e_mc e <> MSkip -> e_lam e = false ->
+  (f_traced fs = true \/ existsb (Z.eqb (e_mod e)) (f_mods fs) = true \/ (f_first fs = false /\ c_entering c = true)) ->
+  fst (rejected c e fs) = false.
+Proof. exact accepted_modules_on. Qed.
+
+(** all-step: the prompted line events are exactly the line events of the frames entered by an accepted call, in order,
+    where "accepted" is [accept_attr]: written with e_mc / e_lam / e_mod and the thread's entered-state only *)
 Theorem C05_step : forall c evs,
+  stream_traced c = true ->
+  map p_idx (filter (fun p => match p_kind p with KLine => true | _ => false end) (prompts c (all Step) evs))
+  = step_spec_attr c 0%nat (s_filter (init c)) [] evs.
+Proof. exact step_lines_attr. Qed.
+
+(** module tracing off, no state at all: every line event of every frame entered by a call in the script module and not
+    in a lambda is prompted, in order, and no other line event *)
+Theorem C05_step_modules_off : forall c evs,
+  stream_traced c = true -> c_modules c = false ->
+  map p_idx (filter (fun p => match p_kind p with KLine => true | _ => false end) (prompts c (all Step) evs))
+  = script_lines 0%nat [] evs.
+Proof. exact step_lines_off. Qed.
+
+(** corollary, the earlier formulation: the same list computed with the filter chain itself *)
+Theorem C05_step_filter_chain : forall c evs,
   stream_traced c = true ->
   map p_idx (filter (fun p => match p_kind p with KLine => true | _ => false end) (prompts c (all Step) evs))
   = step_spec c 0%nat (s_filter (init c)) [] evs.
@@ -199,7 +236,7 @@ Definition ex_stream : list event :=
 Example C05_example_nonvacuous :
   frame_attrs_const ex_stream /\
   map p_idx (prompts cfg_off (all Step) ex_stream) = [1; 2; 3; 4; 5; 6; 7; 8]%nat /\
-  step_spec cfg_off 0%nat (s_filter (init cfg_off)) [] ex_stream = [1; 2; 4; 5; 7]%nat /\
+  script_lines 0%nat [] ex_stream = [1; 2; 4; 5; 7]%nat /\
   map p_idx (prompts cfg_off (all Next) ex_stream) = [1; 2; 7; 8]%nat /\
   map p_idx (prompts cfg_off (all Continue) ex_stream) = [1]%nat /\
   (* hypotheses of C05_continue_partial: pre = [], e0 = the call of <module>, l = its first line, b = 0 *)
@@ -231,6 +268,11 @@ Print Assumptions C05_callable_refuted.
 Print Assumptions C05_next_refuted.
 Print Assumptions C05_continue_refuted.
 Print Assumptions C05_step.
+Print Assumptions C05_filter_complete.
+Print Assumptions C05_filter_complete_modules_off.
+Print Assumptions C05_filter_complete_modules_on.
+Print Assumptions C05_step_modules_off.
+Print Assumptions C05_step_filter_chain.
 Print Assumptions C05_options_in_force.
 Print Assumptions C05_continue_partial.
 Print Assumptions C05_next_partial.
